@@ -391,22 +391,31 @@ class Pipe<StageClass::kGenerator, CurStage, PipeNext> {
     ssize_t numThreads = std::max<ssize_t>(
         1, std::min(tasks_.numPoolThreads(), StageLimits<CurStage>::limit(stage_)));
     completion_ = std::make_unique<CompletionEventImpl>(static_cast<int>(numThreads));
+    // RAII guard ensures the completion event is signaled even if an exception
+    // propagates out of pipeNext_.execute() (e.g. when ConcurrentTaskSet runs a
+    // downstream stage inline and it throws). Without this, wait() would hang on
+    // completion_->wait(0) because the count is never decremented.
+    // The guard is owned by the task functor rather than created inside its body: a generator task
+    // that the task set skips because another one already threw (canceled set) never runs its body,
+    // but its functor is still destroyed, and the count must be released then as well.
+    struct CompletionGuard {
+      explicit CompletionGuard(CompletionEventImpl* c) : completion(c) {}
+      CompletionGuard(CompletionGuard&& other) noexcept : completion(other.completion) {
+        other.completion = nullptr;
+      }
+      CompletionGuard(const CompletionGuard&) = delete;
+      CompletionGuard& operator=(const CompletionGuard&) = delete;
+      CompletionGuard& operator=(CompletionGuard&&) = delete;
+      DISPENSO_INLINE ~CompletionGuard() {
+        if (completion &&
+            completion->intrusiveStatus().fetch_sub(1, std::memory_order_acq_rel) == 1) {
+          completion->notify(0);
+        }
+      }
+      CompletionEventImpl* completion;
+    };
     for (ssize_t i = 0; i < numThreads; ++i) {
-      tasks_.schedule([this]() {
-        // RAII guard ensures the completion event is signaled even if an exception
-        // propagates out of pipeNext_.execute() (e.g. when ConcurrentTaskSet runs a
-        // downstream stage inline and it throws). Without this, wait() would hang on
-        // completion_->wait(0) because the count is never decremented.
-        struct CompletionGuard {
-          DISPENSO_INLINE ~CompletionGuard() {
-            if (completion->intrusiveStatus().fetch_sub(1, std::memory_order_acq_rel) == 1) {
-              completion->notify(0);
-            }
-          }
-          CompletionEventImpl* completion;
-        };
-        CompletionGuard cGuard{completion_.get()};
-
+      tasks_.schedule([this, cGuard = CompletionGuard(completion_.get())]() {
         while (!tasks_.hasException()) {
           auto op = stage_();
           if (!op) {
